@@ -68,7 +68,7 @@ ASSUMPTIONS = [
 MUST_REACH = {"inventory_nodes": 600, "text_roundtrips": 200, "legacy_llsd_roundtrips": 200, "ais_roundtrips": 200,
               "llsd_wire_roundtrips": 150, "model_roundtrips": 60, "ais_model_roundtrips": 40, "enum_members_swept": 100, "optional_absent": 300,
               "metadata_present": 100, "wearables": 40, "animations": 80, "anim_versions_covered": 2, "meshes": 40,
-              "mesh_segments_covered": 6, "meshes_edited_after_raw_parse": 15, "xfer_sequences": 3000, "transfer_sequences": 1500, "out_of_order_completions": 500,
+              "mesh_segments_covered": 6, "meshes_edited_after_raw_parse": 15, "xfer_sequences": 3000, "xfer_sequences_turbo": 1000, "out_of_order_completions_turbo": 100, "transfer_sequences": 1500, "out_of_order_completions": 500,
               "duplicate_arrivals": 500, "boundary_sizes_covered": 20, "tz_covered": 3}
 
 TEXT_POOL = ["", "a", "New Script", "Object", "hello world", "é中\U0001f600", "quote\"s 'single'", "back\\slash", "{", "}", "a = b",
@@ -409,7 +409,7 @@ def rand_anim(rng):
                                    pos=Vector3(*(f32(rng.uniform(-4.9, 4.9)) for _ in range(3)))) for _ in range(rng.randint(0, 5))]
         joints.add(name, llanim.Joint(priority=rng.randrange(-1, 7), rot_keyframes=rots, pos_keyframes=poss))
     constraints = [llanim.Constraint(
-        chain_length=rng.randrange(0, 256), type=rng.choice(list(llanim.ConstraintType)), source_volume=rng.choice(["", "L_HAND", "x" * 15]),
+        chain_length=rng.randrange(0, 256), type=rng.choice(list(llanim.ConstraintType)), source_volume=rng.choice(["", "L_HAND", "x" * 15, "mHead\x00L", "\x00lead", "\u00e9\u00e9"]),
         source_offset=Vector3(*(f32(rng.uniform(-1, 1)) for _ in range(3))), target_volume=rng.choice(["GROUND", "", "R_FOOT"]),
         target_offset=Vector3(*(f32(rng.uniform(-1, 1)) for _ in range(3))), target_dir=Vector3(*(f32(rng.uniform(-1, 1)) for _ in range(3))),
         ease_in_start=f32(rng.random()), ease_in_stop=f32(rng.random()), ease_out_start=f32(rng.random()), ease_out_stop=f32(rng.random()))
@@ -753,7 +753,11 @@ def transfers(ctx, share, nshares):
             for seq in arrival_sequences(n, extra, rng, ctx.pick(150, 6000)):
                 holder = _Holder()
                 mgr = xm.XferManager(holder)
-                xfer = xm.Xfer(4242)
+                # the receiver's two acknowledgement modes: one confirmation per packet, and "turbo" (confirming ahead)
+                turbo = bool(ctx.counters.get("xfer_sequences", 0) % 2)
+                xfer = xm.Xfer(4242, turbo=turbo)
+                if turbo:
+                    ctx.count("xfer_sequences_turbo")
                 seen = set()
                 ok = True
                 for step, pid in enumerate(seq):
@@ -771,7 +775,7 @@ def transfers(ctx, share, nshares):
                     if xfer.done() != should:
                         ctx.violation("xfer-completion-" + ("early" if xfer.done() else "late"), "the transfer's completion does not coincide "
                                       "with the arrival of all chunks up to the end-marked one",
-                                      {"size": size, "raw": raw, "sequence": list(seq), "step": step, "chunks": n})
+                                      {"size": size, "raw": raw, "sequence": list(seq), "step": step, "chunks": n, "turbo": turbo})
                         ok = False
                         break
                     if should and bytes(xfer.reassemble_chunks()) != expected:
@@ -784,6 +788,8 @@ def transfers(ctx, share, nshares):
                     ctx.violation("xfer-expected-size-wrong", "the announced size is not the payload size", {"size": size, "got": xfer.expected_size})
                 if list(seq[:n]) != sorted(seq[:n]):
                     ctx.count("out_of_order_completions")
+                    if turbo:
+                        ctx.count("out_of_order_completions_turbo")
                 ctx.count("xfer_sequences")
                 ctx.ev()
                 ctx.nontrivial(("xfer", size, raw, seq))
